@@ -961,6 +961,106 @@ func c08Extension(r *run.Run) {
 		})
 }
 
+// c08ExtensionWindow: the points at which LookupList.encode starts to move one more lookup behind
+// extension records (the offset of the last lookup has to fit into 16 bits) depend on the exact sizes of
+// the lookup headers, incl. the mark filtering set field.  For every configuration the size of one lookup
+// is swept in 2-byte steps through each such point (found by bisection on the number of extension
+// lookups in the encoded table).
+func c08ExtensionWindow(r *run.Run) {
+	window := 6
+	if !r.Quick() {
+		window = 40
+	}
+	sub := func(n int) gtab.Subtable { // single substitution 1.2 with n adjacent glyphs: 16 + 2n bytes
+		cov := coverage.Table{}
+		subst := make([]glyph.ID, n)
+		for i := 0; i < n; i++ {
+			cov[glyph.ID(i+1)] = i
+			subst[i] = glyph.ID(i%5000 + 7)
+		}
+		return &gtab.Gsub1_2{Cov: cov, SubstituteGlyphIDs: subst}
+	}
+	// nf lookups of fixed size (20, 21, ... KiB), the lookup whose size is swept, and the largest lookup
+	mk := func(nf, marks, nsub, n int) gtab.LookupList {
+		var ll gtab.LookupList
+		add := func(i, n int) {
+			f := gen.Flags[0]
+			if marks>>i&1 != 0 {
+				f = gen.Flags[4+i%2] // mark filtering set 0 / 1
+			}
+			var subs []gtab.Subtable
+			for j := 0; j < nsub; j++ {
+				subs = append(subs, sub(n/nsub+j))
+			}
+			ll = append(ll, gen.MakeLookup(1, f, subs))
+		}
+		add(0, n) // the lookup whose size is swept: the smallest one, replaced last
+		for i := 0; i < nf; i++ {
+			add(1+i, 10000+500*i)
+		}
+		add(nf+1, 12600) // the largest lookup (25 KiB)
+		return ll
+	}
+	// number of lookups written with the extension type, -1 if the encoder refuses
+	extCount := func(nf, marks, nsub, n int) int {
+		var enc []byte
+		if p := guard(func() { enc = c08Info(gtab.TypeGsub, mk(nf, marks, nsub, n)).Encode() }); p != "" {
+			return -1
+		}
+		llPos := int(enc[8])<<8 | int(enc[9]) // header: version, script list, feature list, lookup list
+		cnt := int(enc[llPos])<<8 | int(enc[llPos+1])
+		k := 0
+		for i := 0; i < cnt; i++ {
+			off := llPos + (int(enc[llPos+2+2*i])<<8 | int(enc[llPos+3+2*i]))
+			if off+2 <= len(enc) && (int(enc[off])<<8|int(enc[off+1])) == 7 {
+				k++
+			}
+		}
+		return k
+	}
+	type cfg struct{ nf, marks, nsub int }
+	type point struct {
+		cfg
+		n int
+	}
+	var points []point
+	const lo, hi = 2, 9900
+	for nf := 3; nf <= 4; nf++ {
+		for marks := 0; marks < 1<<(nf+1); marks++ {
+			for nsub := 1; nsub <= 2; nsub++ {
+				var find func(a, b, fa, fb int)
+				find = func(a, b, fa, fb int) {
+					if fa == fb {
+						return
+					}
+					if b-a == 1 {
+						points = append(points, point{cfg{nf, marks, nsub}, b})
+						return
+					}
+					mid := (a + b) / 2
+					fm := extCount(nf, marks, nsub, mid)
+					find(a, mid, fa, fm)
+					find(mid, b, fm, fb)
+				}
+				find(lo, hi, extCount(nf, marks, nsub, lo), extCount(nf, marks, nsub, hi))
+			}
+		}
+	}
+	r.Explore(explore.Config{Name: "C08.extension-window", Deadline: r.PartDeadline(0.4)},
+		fmt.Sprintf("lookup lists of single-substitution lookups [n entries; 3 or 4 lookups of 20, 21, ... KiB; 25 KiB] x all assignments of mark filtering sets to the lookups but the last x 1 or 2 subtables per lookup: the entry count n of the first (smallest) lookup in every step of a window of +-%d around each of the %d points (found by bisection over n = %d..%d) at which the encoder moves one more lookup behind extension records or starts to refuse: the list comes back intact or the encoder refuses loudly", window, len(points), lo, hi),
+		func(c *explore.Ctx) {
+			pt := points[c.Choose(len(points), "configuration and transition point")]
+			n := pt.n - window + c.Choose(2*window+1, "entries relative to the transition point")
+			if n < 1 {
+				c.Skip("no entries")
+			}
+			desc := fmt.Sprintf("lookups of %d entries, %d lookups of 10000, 10500, ... entries, 12600 entries; %d subtable(s) each, mark filtering sets on lookups %b (bit i = lookup i); the number of extension lookups changes at n = %d", n, pt.nf, pt.nsub, pt.marks, pt.n)
+			c.Sample(func() any { return desc })
+			c.Nontrivial()
+			c08RoundTripOnce(c, "extension window", c08Info(gtab.TypeGsub, mk(pt.nf, pt.marks, pt.nsub, n)), gtab.TypeGsub, desc)
+		})
+}
+
 func c08Sizes(r *run.Run) {
 	maxLookups := 2
 	if !r.Quick() {
@@ -1076,6 +1176,7 @@ func init() {
 		c08Gdef(r)
 		c08Lookups(r)
 		c08Extension(r)
+		c08ExtensionWindow(r)
 		c08SubtableLimit(r)
 		c08ListLimits(r)
 		c08FeatureListLimits(r)
